@@ -188,6 +188,22 @@ def campaign(c):
                 what = 'timestamps' if [x[1] for x in A] == [x[1] for x in B] else 'records'
                 c.violation('sem:stored-emission', 'emitting a stored value by name gives other %s than emitting the expression itself (%s)' % (what, e), dict(src=src.decode(), times_direct=[x[0] for x in A][:8], times_stored=[x[0] for x in B][:8]))
         c.case(('stored-emission', e), dict(kind='stored-emission', expr=e))
+    # (f3) a binding whose value is void (the hole functions return nothing) is a binding like any other: usable later, any
+    #      number of times, as a statement, as the value of another let; emitting it emits nothing
+    for vtmpl in ('let gap = t.client_hole(100);\ngap;\ngap;\nt.client_message("after");\n', 'let gap = t.server_hole(7);\nlet g2 = gap;\ng2;\ngap;\nt.server_message("after");\n',
+                  't.client_message("before");\nlet gap = t.client_hole(1);\nt.client_message("mid");\ngap;\nt.client_message("after");\n'):
+        direct = vtmpl
+        for nm in ('gap', 'g2'):
+            direct = '\n'.join(l for l in direct.split('\n') if l.strip() not in (nm + ';',) and not l.startswith('let g2'))
+        direct = direct.replace('let gap = ', '')
+        pre5 = 'import ipv4;\nlet t = ipv4::tcp::flow(1.2.3.4:1, 5.6.7.8:2);\n'
+        rd = core.run_cli((pre5 + direct).encode())
+        src = (pre5 + vtmpl).encode()
+        impl, model = progdiff.run_both(c, src)
+        progdiff.compare(c, src, impl, model, 'void-binding')
+        if impl['outcome'][0] != 'success' or impl['file'] != rd['pcap']:
+            c.violation('sem:void-binding', 'a name bound to a void value is not usable like any other binding: %s (direct spelling: %s)' % (impl['outcome'][:3], core.classify_cli(rd)[:1]), dict(src=src.decode()))
+        c.case(('void-binding', vtmpl[:30]), dict(kind='void-binding'))
     # (f) left-to-right evaluation with a stateful buffer
     for i in range(20 if c.quick else 300):
         r = c.rng.fork('ord%d' % i)
